@@ -12,9 +12,25 @@ import (
 	"strconv"
 	"strings"
 
+	"google.golang.org/protobuf/reflect/protoreflect"
 	"google.golang.org/protobuf/types/dynamicpb"
 )
 
+// c06.go — C06: wire JSON bodies and URL values validate against the generated OpenAPI document.
+//
+// Oracle (implementation artefacts only): generated Go client -> generated Go server over httptest; the captured
+// request bodies, path / query values and 200 / 400 / default response bodies are validated by the reference
+// validator (harness/py/validate.py: python jsonschema, Draft 2020-12, plus the "property no schema describes"
+// walk) against the documents protoc-gen-openapiv3 emitted for the same service.
+//
+// Correspondence: for every case inside the model's domain Coq evaluates Conform.predict_C06 (vm_compute) on
+// (prepared document of the service = OpenApi.v model of the components, message type, value, float print table):
+// the MODEL's wire JSON (Codec.encode / Errors.pmsg_pj / the typed URL value) is validated by JsonSchema.validates
+// against the MODEL's schema, and {"valid", "undescribed"} is compared with the reference validator's verdict on
+// the real document and the real JSON.  Defect tags of modelled cases come from Conform.defects_C06.
+// Outside the domain (model says unmodelled, or no model term: URL values of optional / repeated / enum / bytes
+// fields, error bodies of requests the server rejected for unscripted reasons) the case is oracle-only (Z3) and a
+// failure is tagged z3:<schema>:<body|parameter>:<error kind>.
 
 // errKind maps a reference-validator message to a small class (no values, no paths, no prose).
 func errKind(e string) string {
@@ -48,6 +64,8 @@ type c06Case struct {
 	instance          any
 	input             map[string]any
 	feature           string
+	group             int    // index of the request (Coq definitions group); -1 = no model case
+	term              string // Coq term of type c06_case
 }
 
 // paramInstance reads a URL/header string under the parameter schema's type ("string serialisation").
@@ -102,19 +120,25 @@ func CheckC06(run *Run) {
 		op   map[string]any
 		doc  string
 		kind string
+		ri   int
+		docT string // name of the prepared c06_doc definition
+		rm   *dynamicpb.Message
+		resp *dynamicpb.Message
 	}
 	var scen []any
 	var refs []rpcRef
 	var cases []*c06Case
 	addCase := func(c *c06Case) { c.id = fmt.Sprintf("%s#%d", c.id, len(cases)); cases = append(cases, c) }
+	groups := make([]CoqGroup, len(reqs))
 	for i, r := range reqs {
 		g := s.Gens[i]
 		oa := g.Results["openapiv3"]
 		if oa.Exit != "ok" {
 			continue
 		}
-		for _, f := range r.Files {
-			for _, svc := range f.Services {
+		groups[i].Defs = fmt.Sprintf("Definition sc_%d : schema := %s.\nDefinition sd_%d : side := %s.\n", i, CoqSchema(r), i, CoqSide(r))
+		for fi, f := range r.Files {
+			for si, svc := range f.Services {
 				text, ok := oa.Files[svc.Name+".openapi.yaml"]
 				if !ok {
 					continue
@@ -125,6 +149,8 @@ func CheckC06(run *Run) {
 				}
 				docID := r.ID + "/" + svc.Name
 				docs[docID] = doc
+				docT := fmt.Sprintf("doc_%d_%d_%d", i, fi, si)
+				groups[i].Defs += fmt.Sprintf("Definition %s : c06_doc := Eval vm_compute in prepare_C06 sc_%d sd_%d %d%%nat %d%%nat.\n", docT, i, i, fi, si)
 				ops := map[string]map[string]any{}
 				for _, o := range OpenAPIOps(doc) {
 					ops[o.OperationID] = o.Raw
@@ -156,15 +182,15 @@ func CheckC06(run *Run) {
 						pathBoundNonEmpty(rm, md, rng)
 						scen = append(scen, map[string]any{"id": fmt.Sprint(len(scen)), "kind": "call", "pkg": r.ID, "service": svc.Name, "method": md.Name,
 							"req": WireHex(rm), "script": map[string]any{"resp": WireHex(resp)}, "opts": map[string]any{"ContentType": "application/json"}})
-						refs = append(refs, rpcRef{r, g, svc, md, op, docID, "success"})
+						refs = append(refs, rpcRef{r, g, svc, md, op, docID, "success", i, docT, rm, resp})
 					}
 					// error responses: handler error (default), malformed body (400)
 					scen = append(scen, map[string]any{"id": fmt.Sprint(len(scen)), "kind": "call", "pkg": r.ID, "service": svc.Name, "method": md.Name,
 						"req": WireHex(dynamicpb.NewMessage(in)), "script": map[string]any{"err": map[string]any{"kind": "plain", "msg": "boom"}}, "opts": map[string]any{"ContentType": "application/json"}})
-					refs = append(refs, rpcRef{r, g, svc, md, op, docID, "handler-error"})
+					refs = append(refs, rpcRef{r, g, svc, md, op, docID, "handler-error", i, docT, nil, nil})
 					scen = append(scen, map[string]any{"id": fmt.Sprint(len(scen)), "kind": "call", "pkg": r.ID, "service": svc.Name, "method": md.Name,
 						"req": WireHex(dynamicpb.NewMessage(in)), "script": map[string]any{}, "validate": []map[string]any{{"path": []string{"a", "b"}, "msg": "bad"}}, "opts": map[string]any{"ContentType": "application/json"}})
-					refs = append(refs, rpcRef{r, g, svc, md, op, docID, "validation-error"})
+					refs = append(refs, rpcRef{r, g, svc, md, op, docID, "validation-error", i, docT, nil, nil})
 				}
 			}
 		}
@@ -198,12 +224,31 @@ func CheckC06(run *Run) {
 			return v, true
 		}
 		feat := ref.r.ID + "." + ref.md.Name
+		bodyTerm := func(tn string, m *dynamicpb.Message) string {
+			_, term := MsgCanon(m)
+			ft := NewFloatTabs()
+			ft.AddMessage(m)
+			p, st := ft.Coq()
+			return fmt.Sprintf("(%s, WBody %s %s, %s, %s)", ref.docT, CoqStr(tn), term, p, st)
+		}
+		paramTerm := func(fd protoreflect.FieldDescriptor) string {
+			if fd == nil || fd.IsList() || fd.IsMap() || fd.HasPresence() || ref.rm == nil {
+				return ""
+			}
+			switch fd.Kind() {
+			case protoreflect.MessageKind, protoreflect.GroupKind, protoreflect.EnumKind, protoreflect.BytesKind:
+				return ""
+			}
+			_, sv := scalarCanon(fd, ref.rm.Get(fd))
+			return fmt.Sprintf("(%s, WParam %s (%s), [], [])", ref.docT, coqKind(fd.Kind().String(), ""), sv)
+		}
 		if len(o.Requests) > 0 && ref.kind == "success" {
 			rq := o.Requests[0]
 			// request body
 			if rb, ok := op2(ref.op, "requestBody", "content", "application/json", "schema"); ok {
 				if inst, has := parse(rq.BodyHex); has {
-					addCase(&c06Case{id: fmt.Sprintf("%d.reqbody", i), family: "request-body", docID: ref.doc, schema: rb, instance: inst, input: merge(base, "direction", "request"), feature: feat})
+					addCase(&c06Case{id: fmt.Sprintf("%d.reqbody", i), family: "request-body", docID: ref.doc, schema: rb, instance: inst, input: merge(base, "direction", "request"), feature: feat,
+						group: ref.ri, term: bodyTerm(ref.md.In, ref.rm)})
 				}
 			}
 			// parameters
@@ -216,8 +261,17 @@ func CheckC06(run *Run) {
 				sch, _ := pm["schema"].(map[string]any)
 				switch pm["in"] {
 				case "query":
+					var qfd protoreflect.FieldDescriptor
+					if in, _ := ref.r.FindMessage(ref.md.In); in != nil && ref.rm != nil {
+						for _, sf := range in.Fields {
+							if sf.Query != nil && (sf.Query.Name == name || (sf.Query.Name == "" && sf.Name == name)) {
+								qfd = ref.rm.Descriptor().Fields().ByName(protoreflect.Name(sf.Name))
+							}
+						}
+					}
 					for _, v := range q[name] {
-						addCase(&c06Case{id: fmt.Sprintf("%d.q.%s", i, name), family: "query-parameter", docID: ref.doc, schema: sch, instance: paramInstance(sch, v), input: merge(base, "parameter", name, "raw", v), feature: feat})
+						addCase(&c06Case{id: fmt.Sprintf("%d.q.%s", i, name), family: "query-parameter", docID: ref.doc, schema: sch, instance: paramInstance(sch, v), input: merge(base, "parameter", name, "raw", v), feature: feat,
+							group: ref.ri, term: paramTerm(qfd)})
 					}
 				case "path":
 					tsegs := strings.Split(pathTemplateOf(ref.doc, docs, ref.md.Name), "/")
@@ -226,7 +280,12 @@ func CheckC06(run *Run) {
 						for k, ts := range tsegs {
 							if ts == "{"+name+"}" {
 								v, _ := url.PathUnescape(rsegs[k])
-								addCase(&c06Case{id: fmt.Sprintf("%d.p.%s", i, name), family: "path-parameter", docID: ref.doc, schema: sch, instance: paramInstance(sch, v), input: merge(base, "parameter", name, "raw", v), feature: feat})
+								var pfd protoreflect.FieldDescriptor
+								if ref.rm != nil {
+									pfd = ref.rm.Descriptor().Fields().ByName(protoreflect.Name(name))
+								}
+								addCase(&c06Case{id: fmt.Sprintf("%d.p.%s", i, name), family: "path-parameter", docID: ref.doc, schema: sch, instance: paramInstance(sch, v), input: merge(base, "parameter", name, "raw", v), feature: feat,
+									group: ref.ri, term: paramTerm(pfd)})
 							}
 						}
 					}
@@ -247,7 +306,17 @@ func CheckC06(run *Run) {
 				code = "400"
 			}
 			if sch := respSchema(ref.op, code); sch != nil {
-				addCase(&c06Case{id: fmt.Sprintf("%d.resp", i), family: "response-body-" + code, docID: ref.doc, schema: sch, instance: inst, input: merge(base, "status", o.Status), feature: feat})
+				term := ""
+				switch {
+				case ref.kind == "success" && o.Status == 200:
+					term = bodyTerm(ref.md.Out, ref.resp)
+				case ref.kind == "handler-error" && o.Status == 500:
+					term = fmt.Sprintf("(%s, WError %s, [], [])", ref.docT, CoqStr("boom"))
+				case ref.kind == "validation-error" && o.Status == 400 && len(o.HandlerCalls) == 0 && c06IsStubViolation(inst):
+					term = fmt.Sprintf("(%s, WValidation [(%s, %s)], [], [])", ref.docT, CoqStr("a.b"), CoqStr("bad"))
+				}
+				addCase(&c06Case{id: fmt.Sprintf("%d.resp", i), family: "response-body-" + code, docID: ref.doc, schema: sch, instance: inst, input: merge(base, "status", o.Status), feature: feat,
+					group: ref.ri, term: term})
 			}
 		}
 	}
@@ -260,6 +329,7 @@ func CheckC06(run *Run) {
 	if err != nil {
 		run.Fatal("%v", err)
 	}
+	groupRes := make([][]*CaseResult, len(reqs))
 	for _, c := range cases {
 		v := verdicts[c.id]
 		holds := v.Valid && len(v.Undescribed) == 0
@@ -275,29 +345,74 @@ func CheckC06(run *Run) {
 		note := strings.Join(classes, " ; ")
 		cr := &CaseResult{ID: c.id, Family: c.family, Input: merge(c.input, "instance", c.instance), Obs: map[string]any{"valid": v.Valid, "undescribed": len(v.Undescribed)},
 			OracleHolds: holds, OracleNote: note, NonTrivial: true, Features: []string{c.family}}
-		// no Coq model of the schema generator yet for this property's instances: oracle only (Z3)
-		cr.Unmodelled = "instance/schema pair evaluated by the reference validator only"
-		if !holds {
-			kinds := map[string]bool{}
-			for _, e := range v.Errors {
-				kinds[errKind(e)] = true
-			}
-			if len(v.Undescribed) > 0 {
-				kinds["undescribed-property"] = true
-			}
-			fam := "body"
-			if strings.HasSuffix(c.family, "-parameter") {
-				fam = "parameter"
-			}
-			for k := range kinds {
-				cr.Tags = append(cr.Tags, "z3:"+strings.SplitN(c.feature, ".", 2)[0]+":"+fam+":"+k)
-			}
-			sort.Strings(cr.Tags)
+		if c.term != "" {
+			// inside the model's domain: the model's verdict (Conform.predict_C06: the MODEL's schema on the MODEL's
+			// wire JSON) is compared with the reference validator's verdict on the real document and the real JSON
+			groups[c.group].Cases = append(groups[c.group].Cases, CoqCase{Term: c.term, Obs: cr.Obs})
+			groupRes[c.group] = append(groupRes[c.group], cr)
+			run.Results = append(run.Results, cr)
+			continue
 		}
+		// outside: oracle only (Z3)
+		cr.Unmodelled = "instance/schema pair evaluated by the reference validator only"
+		c06Z3Tags(cr, c, v, holds)
 		run.Results = append(run.Results, cr)
 	}
+	vs, err := CoqRunGroups(run.WorkDir, "c06", "From Sebuf Require Import Conform.\n", "c06_case", "predict_C06", groups, 16)
+	if err != nil {
+		run.Fatal("model evaluation: %v", err)
+	}
+	byID := map[string]*c06Case{}
+	for _, c := range cases {
+		byID[c.id] = c
+	}
+	for gi := range groups {
+		for k, cr := range groupRes[gi] {
+			cr.Apply(vs[gi][k])
+			if cr.Unmodelled != "" {
+				c := byID[cr.ID]
+				v := verdicts[c.id]
+				c06Z3Tags(cr, c, v, v.Valid && len(v.Undescribed) == 0)
+			}
+		}
+	}
 	run.Extra["documents"] = len(docs)
+	debugDump(run)
 	run.Finish()
+}
+
+// c06IsStubViolation: the 400 body is the scripted violation (not a header / binding rejection of the request).
+func c06IsStubViolation(inst any) bool {
+	m, _ := inst.(map[string]any)
+	vs, _ := m["violations"].([]any)
+	if len(vs) != 1 {
+		return false
+	}
+	v, _ := vs[0].(map[string]any)
+	return v["field"] == "a.b" && v["description"] == "bad"
+}
+
+// c06Z3Tags tags a failing case outside the model from its input and the reference validator's error kinds.
+func c06Z3Tags(cr *CaseResult, c *c06Case, v *SchemaVerdict, holds bool) {
+	if holds {
+		return
+	}
+	cr.Tags = nil
+	kinds := map[string]bool{}
+	for _, e := range v.Errors {
+		kinds[errKind(e)] = true
+	}
+	if len(v.Undescribed) > 0 {
+		kinds["undescribed-property"] = true
+	}
+	fam := "body"
+	if strings.HasSuffix(c.family, "-parameter") {
+		fam = "parameter"
+	}
+	for k := range kinds {
+		cr.Tags = append(cr.Tags, "z3:"+strings.SplitN(c.feature, ".", 2)[0]+":"+fam+":"+k)
+	}
+	sort.Strings(cr.Tags)
 }
 
 func dedup(xs []string) []string {
